@@ -439,8 +439,57 @@ def run(tier, seed):
                                         fs_ = F.on_edge(pb_, b_)
                                         if M.find_fact(("ne", ("load", ("inst", sp[1])), ord("/")), fs_)[0] is not None:
                                             return True
+                                        def is_strlen_of_base(o_):
+                                            dl_ = fn.defn(M.strip(o_)) if not is_const(o_) else None
+                                            return dl_ is not None and not dl_.is_param and dl_.op == "call" and xmod.callee_cname(dl_) == "strlen" and \
+                                                (M.strip(dl_.ops[0], ("bitcast",)) == base0 or same_field_load(M.strip(dl_.ops[0], ("bitcast",)), base0))
+
+                                        def same_field_load(a_, b_):
+                                            da_, db_ = fn.defn(a_), fn.defn(b_)
+                                            if not (da_ is not None and db_ is not None and not da_.is_param and not db_.is_param and da_.op == "load" and db_.op == "load"):
+                                                return False
+                                            pa_, pb2_ = M.strip(da_.ops[0], ("bitcast",)), M.strip(db_.ops[0], ("bitcast",))
+                                            if pa_ == pb2_:
+                                                return True
+                                            ga_, gb_ = fn.defn(pa_), fn.defn(pb2_)
+                                            from ..ir import field_of_gep as _fog
+                                            # two address computations of one member of one object
+                                            return ga_ is not None and gb_ is not None and not ga_.is_param and not gb_.is_param and ga_.op == gb_.op == "getelementptr" and \
+                                                _fog(xmod, ga_) is not None and _fog(xmod, ga_) == _fog(xmod, gb_) and M.strip(ga_.ops[0], ("bitcast",)) == M.strip(gb_.ops[0], ("bitcast",))
+
+                                        def contradicts(src_facts, site_facts):
+                                            """the edge that delivered this source carries `X == 0` while the site is only reached under `X' != 0` for a re-load X' of
+                                            the same (never written here) field - or the other way round"""
+                                            for a_ in src_facts:
+                                                for b_ in site_facts:
+                                                    if {a_[0], b_[0]} == {"eq", "ne"} and is_const(a_[2]) and is_const(b_[2]) and const_val(a_[2]) == const_val(b_[2]) == 0 and \
+                                                            (M.strip(a_[1]) == M.strip(b_[1]) or same_field_load(M.strip(a_[1]), M.strip(b_[1]))):
+                                                        return True
+                                            return False
+                                        for q in fs_:
+                                            # s[i] != '/' read through another load of the same string pointer
+                                            if q[0] == "ne" and is_const(q[2]) and const_val(q[2]) == ord("/"):
+                                                dq = fn.defn(M.strip(q[1]))
+                                                if dq is not None and not dq.is_param and dq.op == "load":
+                                                    gq = fn.defn(M.strip(dq.ops[0], ("bitcast",)))
+                                                    if gq is not None and not gq.is_param and gq.op == "getelementptr":
+                                                        iq = [st_["idx"] for st_ in gq.steps if "idx" in st_]
+                                                        bq = M.strip(gq.ops[0], ("bitcast",))
+                                                        if len(iq) == 1 and M.strip(iq[0]) == M.strip(idx0[0]) and (bq == base0 or same_field_load(bq, base0)):
+                                                            return True
                                         for q in fs_:
                                             if q[0] in ("uge", "eq") and M.strip(q[1]) == M.strip(idx0[0]):
+                                                # the bound may be a variable that holds strlen(s) on every way it can arrive here (a length computed earlier
+                                                # under the same condition; the arm that leaves it 0 belongs to the branch this site is not on)
+                                                if not is_const(q[2]):
+                                                    dphi = fn.defn(M.strip(q[2]))
+                                                    if dphi is not None and not dphi.is_param and dphi.op == "phi":
+                                                        srcs__ = [(v__, F.on_edge(pb__, dphi.block.id)) for v__, pb__ in dphi.incoming]     # edge by edge
+                                                    else:
+                                                        srcs__ = F.sources(q[2])
+                                                    live = [(s__, f__) for s__, f__ in srcs__ if not contradicts(f__, fs_ | set(F.at_inst(c)))]
+                                                    if live and all(is_strlen_of_base(s__) for s__, _ in live):
+                                                        return True
                                                 dl = fn.defn(M.strip(q[2])) if not is_const(q[2]) else None
                                                 if dl is not None and not dl.is_param and dl.op == "call" and xmod.callee_cname(dl) == "strlen" and \
                                                         M.strip(dl.ops[0], ("bitcast",)) == base0 or (dl is not None and not dl.is_param and dl.op == "call" and xmod.callee_cname(dl) == "strlen" and M.equiv(M.strip(dl.ops[0], ("bitcast",)), base0)):
